@@ -178,6 +178,7 @@ type walkFeatures struct {
 	reservedStop bool // id 15 stops the walk
 	idShift      bool // id = byte >> 4
 	lenPlusOne   bool // len = (byte & 0x0F) + 1
+	byteStops    []int64 // non-zero constants a whole element-header byte is compared with on a branch that leaves the walk
 }
 
 func (w walkFeatures) String() string {
@@ -194,6 +195,7 @@ func walkerFeatures(c *Ctx, fn *ssa.Function) walkFeatures {
 		f.reservedStop = f.reservedStop || g.reservedStop
 		f.idShift = f.idShift || g.idShift
 		f.lenPlusOne = f.lenPlusOne || g.lenPlusOne
+		f.byteStops = append(f.byteStops, g.byteStops...)
 	}
 	return f
 }
@@ -237,6 +239,11 @@ func walkerFeatures1(c *Ctx, fn *ssa.Function) walkFeatures {
 			t := b.Succs[0]
 			if !core.Reachable(t)[b] || !inAnyLoop(t) {
 				f.reservedStop = true
+			}
+		case k != 0 && vecMatches(xv, "$b[@c].7-0"):
+			t := b.Succs[0]
+			if !core.Reachable(t)[b] || !inAnyLoop(t) {
+				f.byteStops = append(f.byteStops, k)
 			}
 		}
 	}
@@ -314,6 +321,9 @@ func c03(c *Ctx) {
 		f := walkerFeatures(c, fn)
 		n++
 		r.Add("SIBLING.walk", core.FuncName(fn), "two-byte walk skips zero padding bytes", p.Position(fn.Pos()), f.paddingSkip, f.String())
+		n++
+		r.Add("SIBLING.walk", core.FuncName(fn), "two-byte walk reserves no id (RFC 8285 4.3: only the one-byte form stops at id 15)", p.Position(fn.Pos()), len(f.byteStops) == 0 && !f.reservedStop,
+			fmt.Sprintf("the walk ends when an element id equals %v", f.byteStops))
 	}
 	n += viewIdentity(c)
 	n += profileDispatch(c)
@@ -325,6 +335,7 @@ func c03(c *Ctx) {
 	pu := p.Func("rtp.(*Packet).Unmarshal")
 	c.wrapScope = map[string]bool{"rtp.(*Header).Unmarshal": true, "rtp.(*Packet).Unmarshal": true}
 	boundsRun(c, []*ssa.Function{hu, pu}, headerContracts(c, true))
+	accFreshFor(c, 4, "/packet.go", "header_extension.go")
 }
 
 // viewIdentity (O5): Unmarshal of the three block views stores the parameter; Marshal returns the
